@@ -152,6 +152,13 @@ func VfLookupRun() {
 		d.routingTable.TryAddPeer(all[i], true, false)
 	}
 	target := vfTargetKey()
+	if vfParam("SLOWDIAL") == 1 && vfBool("aPeerIsSlowToDial") {
+		// one peer is not connected yet and its first dial hangs until the dial's
+		// context ends: when the lookup ends first, that peer is still Waiting
+		slow := all[vfChoose("slowDialPeer", N)]
+		e.host.nw.connected[slow] = network.NotConnected
+		e.host.connectSlowOnce = map[peer.ID]bool{slow: true}
+	}
 	if vfParam("DIVERSITY") == 1 {
 		// the Amino setting: at most 2 peers of an IP group per bucket, 3 in the table;
 		// responses are filtered with the table-wide limit
@@ -257,7 +264,7 @@ drain:
 					}
 				}
 				for _, x := range up.Unreachable {
-					vfAssert(failedP[x.Peer], "events/unreachable-peer-really-failed")
+					vfAssert(failedP[x.Peer] || e.host.dialFailed[x.Peer], "events/unreachable-peer-really-failed")
 					failedAtEnd[x.Peer] = true
 				}
 				for _, h := range up.Heard {
